@@ -579,3 +579,341 @@ def positional_bounds_family(out, prop):
                             if k == F and getattr(x, nm) is getattr(y, nm):
                                 out.violation(f'{prop}:positional-bounds:shared-factory-product', f'fields {shape}: two conversions of {data!r} share the list in field {nm}', {'fields': list(shape)})
     return n
+
+
+def struct_mapping_family(out, prop):
+    """The mapping (struct) layout of a dataclass, decided from the class declaration alone, for classes with and without
+    allow_extra, with renamed / aliased / in_names fields, required / default / factory fields and defaults that are NOT of the
+    field's kind.  For every mapping built from: a subset of the fields (under every input name), 0-4 unknown keys, both names
+    of one field at once, the default object itself as an explicit value:
+      accepted  <=>  every key names a field (or allow_extra) and no field is named twice and no required field is absent and
+                     every given value is a member of its field's type;
+    then the given fields hold the converted values, the others their defaults (a fresh product for a factory), and the
+    set-field record is the given FIELDS.  try_convert, collect_errors and from_data agree, and an exact `dict` passed in is
+    left as it was (same keys, same values) whether or not the conversion succeeds."""
+    import itertools
+    import pane
+    from pane.convert import make_converter
+    from pane.errors import ConvertError
+    n = 0
+    UNSET = 'unset'
+
+    class Plain(pane.PaneBase, allow_extra=True):
+        name: str
+        retries: int
+        tags: t.List[str] = pane.field(default_factory=list)
+        note: str = 'n'
+
+    class Strict(pane.PaneBase):
+        name: str
+        port: int = 8080
+        debug: bool = False
+        weight: float = 1.0
+
+    class Renamed(pane.PaneBase):
+        x: int
+        label: str = pane.field(rename='name', default='l')
+        other: int = pane.field(in_names=['A'], default=0)
+
+    class Camel(pane.PaneBase, rename='camel', allow_extra=True):
+        first_name: str
+        last_name: str = 'x'
+
+    class Aliased(pane.PaneBase):
+        x: int = pane.field(aliases=['X', 'ex'])
+        y: int = 0
+
+    class Odd(pane.PaneBase):
+        key: str
+        retries: int = None          # defaults are stored verbatim: these are not members of the field types
+        verbose: bool = 0
+        limit: float = UNSET
+        text: str = None
+    members_by = {str: 'v', int: 3, bool: True, float: 2.5}
+
+    class _M(dict):
+        def __missing__(self, ty):
+            return members_by.get(ty, ['t'])
+    members = _M()
+    with warnings.catch_warnings():
+        warnings.simplefilter('ignore')
+        for cls in (Plain, Strict, Renamed, Camel, Aliased, Odd):
+            info = cls.__pane_info__
+            conv = make_converter(cls)
+            fields = [f for f in info.fields if f.init]
+            keys_of = {f.name: list(dict.fromkeys([f.name, *f.in_names])) for f in fields}
+            required = [f.name for f in fields if not f.has_default()]
+            subsets = [s for r in range(len(fields) + 1) for s in itertools.combinations(range(len(fields)), r)]
+            for sub in subsets:
+                given = [fields[i] for i in sub]
+                variants = [{}]
+                # each given field under each of its input names (first field varies, the others use their first name)
+                name_choices = [[(f, k) for k in keys_of[f.name]] if j == 0 else [(f, keys_of[f.name][-1])] for j, f in enumerate(given)]
+                for combo in itertools.product(*name_choices):
+                    for extra in (0, 1, 2, 4):
+                        for mode in ('member', 'default-object', 'twice'):
+                            d = {}
+                            ok_values = True
+                            named_twice = False
+                            for f, k in combo:
+                                v = members[f.type]
+                                if mode == 'default-object' and f.has_default() and f.default_factory is None:
+                                    v = f.default
+                                    try:
+                                        pane.from_data(v, f.type)
+                                    except Exception:
+                                        ok_values = False
+                                d[k] = v
+                            if mode == 'twice':
+                                if not combo or len(keys_of[combo[0][0].name]) < 2:
+                                    continue
+                                f0 = combo[0][0]
+                                for k in keys_of[f0.name]:
+                                    d[k] = members[f0.type]
+                                named_twice = True
+                            for e in range(extra):
+                                d[f'unknown_{e}'] = e
+                            want = ok_values and not named_twice and (extra == 0 or info.opts.allow_extra) and all(r in {f.name for f, _ in combo} for r in required)
+                            n += 1
+                            before_keys, before_vals = list(d), [repr(x) for x in d.values()]
+                            try:
+                                x = cls.from_data(d)
+                                got = True
+                            except ConvertError:
+                                got, x = False, None
+                            except Exception as e:
+                                out.violation(f'{prop}:struct-mapping:{type(e).__name__}', f'{cls.__name__}.from_data({d!r}) raised {type(e).__name__}: {_msg(e)}', {'class': cls.__name__, 'data': repr(d)})
+                                continue
+                            if list(d) != before_keys or [repr(v) for v in d.values()] != before_vals:
+                                out.violation(f'{prop}:struct-mapping:input-changed', f'{cls.__name__}.from_data left the dict passed in as {d!r}; it had the keys {before_keys}', {'class': cls.__name__, 'keys': before_keys})
+                                continue
+                            try:
+                                tv = ('ok', conv.try_convert(dict(d)))
+                            except Exception as e:
+                                tv = ('reject' if type(e).__name__ == 'ParseInterrupt' else 'escape', None)
+                            try:
+                                cv = conv.collect_errors(dict(d))
+                            except Exception as e:
+                                cv = e
+                            if (tv[0] == 'ok') != (cv is None):
+                                out.violation(f'{prop}:struct-mapping:passes-disagree', f'{cls.__name__}: try_convert of {d!r} gives {tv[0]}, collect_errors gives {cv!r}', {'class': cls.__name__, 'data': repr(d)})
+                                continue
+                            if got != want:
+                                why = ('a field is named twice' if named_twice else 'unknown keys' if extra and not info.opts.allow_extra else
+                                       'a required field is absent' if not all(r in {f.name for f, _ in combo} for r in required) else 'a value is not a member of its field type' if not ok_values else 'nothing is wrong with it')
+                                out.violation(f'{prop}:struct-mapping', f'{cls.__name__}.from_data({d!r}) is {"accepted -> " + repr(x) if got else "rejected"}; {why} '
+                                              f'(required {required}, allow_extra={info.opts.allow_extra})', {'class': cls.__name__, 'data': repr(d)})
+                                continue
+                            if got:
+                                gf = {f.name for f, _ in combo}
+                                for f in fields:
+                                    if not hasattr(x, f.name):
+                                        out.violation(f'{prop}:struct-mapping:field-not-set', f'{cls.__name__}.from_data({d!r}) returned an instance without the field {f.name}', {'class': cls.__name__, 'data': repr(d)})
+                                        break
+                                    val = getattr(x, f.name)
+                                    if f.name in gf:
+                                        exp = members[f.type] if mode != 'default-object' or not (f.has_default() and f.default_factory is None) else f.default
+                                    else:
+                                        exp = f.default_factory() if f.default_factory is not None else f.default
+                                    if repr(val) != repr(exp):
+                                        out.violation(f'{prop}:struct-mapping:field-value', f'{cls.__name__}.from_data({d!r}): field {f.name} holds {val!r}, expected {exp!r}', {'class': cls.__name__, 'data': repr(d)})
+                                        break
+                                else:
+                                    if set(x.__pane_set__) != gf:
+                                        out.violation(f'{prop}:struct-mapping:set-record', f'{cls.__name__}.from_data({d!r}): set-field record {sorted(x.__pane_set__)}, given were {sorted(gf)}', {'class': cls.__name__, 'data': repr(d)})
+    return n
+
+
+def equal_but_distinct_family(out, prop):
+    """Values that == identifies but that are different values -- 1 / True / 1.0 / Fraction(1) / Decimal(1); Decimal('1.5') /
+    Decimal('1.50'); Fraction(1, 2) / Decimal('0.5'); 0.0 / -0.0; equal frozen instances differing in a compare=False field or in
+    the type of a field value -- handed one after the other to the SAME serialiser / converter (successive calls, elements of
+    one list, fields of one instance).  Each is written as itself and reads back as itself: same runtime class, same repr."""
+    import decimal
+    import fractions
+    import pane
+    n = 0
+    F, D = fractions.Fraction, decimal.Decimal
+
+    class Rec(pane.PaneBase):
+        key: int
+        note: str = pane.field(default='', compare=False)
+        val: t.Any = None
+
+    class Money(pane.PaneBase):
+        share: F = None
+        price: D = None
+        qty: t.Union[bool, int, float] = 0
+    groups = [
+        (t.Union[bool, int, float], [True, 1, 1.0, 0, False, 0.0]), (float, [0.0, -0.0, 1.0]), (t.List[t.Any], [[1], [True], [1.0]]),
+        # (unions of Fraction and Decimal overlap on their serialised text: the recorded overlapping-union finding, not used here)
+        (D, [D('1.5'), D('1.50'), D('1.500'), D('0.5')]), (F, [F(1, 2), F(2, 4), F(1)]),
+        (Rec, [Rec.make_unchecked(1, 'first'), Rec.make_unchecked(1, 'second'), Rec.make_unchecked(1, 'third', 1), Rec.make_unchecked(1, 'fourth', True), Rec.make_unchecked(1, 'fifth', 1.0)]),
+        (Money, [Money.make_unchecked(F(3, 4), D('0.75'), 1), Money.make_unchecked(F(3, 4), D('0.750'), True), Money.make_unchecked(F(1, 2), D('0.5'), 1.0)]),
+        (t.Tuple[F, D], [(F(1, 2), D('0.5')), (F(1, 4), D('0.25'))]), (t.Tuple[D, F], [(D('0.5'), F(1, 2))]),
+    ]
+
+    def show(v):
+        if isinstance(v, pane.PaneBase):
+            return (type(v).__name__, tuple((f.name, show(getattr(v, f.name))) for f in type(v).__pane_info__.fields))
+        if isinstance(v, (list, tuple)):
+            return (type(v).__name__, tuple(show(x) for x in v))
+        if isinstance(v, dict):
+            return ('dict', tuple((k, show(x)) for k, x in v.items()))
+        return (type(v).__name__, repr(v))
+    with warnings.catch_warnings():
+        warnings.simplefilter('ignore')
+        for ty, vals in groups:
+            for order in (vals, vals[::-1]):
+                # successive calls through the same (memoised) converter
+                for v in order:
+                    n += 1
+                    try:
+                        d = pane.into_data(v, ty)
+                        back = pane.from_data(d, ty)
+                        conv = pane.convert(v, ty)
+                    except Exception as e:
+                        out.violation(f'{prop}:equal-but-distinct:{type(e).__name__}', f'{v!r} as {ty!r}, after {[repr(x) for x in order[:order.index(v)]]} went through the same converter: '
+                                      f'{type(e).__name__}: {_msg(e)}', {'type': repr(ty), 'value': repr(v)})
+                        continue
+                    for how, r in (('from_data(into_data(x))', back), ('convert(x)', conv)):
+                        if show(r) != show(v):
+                            out.violation(f'{prop}:equal-but-distinct', f'{how} for x = {v!r} as {ty!r} gave {r!r} (written as {d!r}); earlier through the same converter: '
+                                          f'{[repr(x) for x in order[:order.index(v)]]}', {'type': repr(ty), 'value': repr(v), 'how': how})
+                            break
+                # all of them in one list
+                n += 1
+                try:
+                    lt = t.List[ty]
+                    back = pane.from_data(pane.into_data(list(order), lt), lt)
+                    if [show(x) for x in back] != [show(x) for x in order]:
+                        out.violation(f'{prop}:equal-but-distinct:in-one-list', f'{list(order)!r} as List[{ty!r}] reads back as {back!r}', {'type': repr(ty), 'values': repr(list(order))})
+                except Exception as e:
+                    out.violation(f'{prop}:equal-but-distinct:in-one-list:{type(e).__name__}', f'{list(order)!r} as List[{ty!r}]: {type(e).__name__}: {_msg(e)}', {'type': repr(ty)})
+    return n
+
+
+def argument_dependent_handlers(out, prop):
+    """Handlers whose answer for one base class depends on the type ARGUMENTS (they serve list[Q] and decline list[str], or the
+    mapping form, which serves the bare `list` only), asked about several parametrisations of that base in both orders -- as
+    call-level handlers, class-level handlers and handlers registered globally.  Every lookup behaves as if it were the first:
+    what the handler serves is converted by its converter, what it declines by the built-in one."""
+    import importlib
+    import pane
+    V = importlib.import_module('pane.convert')
+    from pane.converters import Converter
+    n = 0
+
+    class Q:
+        def __init__(self, v):
+            self.v = v
+
+        def __eq__(self, o):
+            return isinstance(o, Q) and o.v == self.v
+
+        def __repr__(self):
+            return f'Q({self.v!r})'
+
+    class QList(Converter):
+        def expected(self, plural=False):
+            return 'quantities'
+
+        def into_data(self, val):
+            return [q.v for q in val]
+
+        def try_convert(self, val):
+            if not isinstance(val, list):
+                from pane.converters import ParseInterrupt
+                raise ParseInterrupt()
+            return [Q(v) for v in val]
+
+        def collect_errors(self, val):
+            from pane.errors import WrongTypeError
+            return None if isinstance(val, list) else WrongTypeError('quantities', val)
+
+    class Marked(Converter):
+        def expected(self, plural=False):
+            return 'anything'
+
+        def into_data(self, val):
+            return val
+
+        def try_convert(self, val):
+            return ('marked', val)
+
+        def collect_errors(self, val):
+            return None
+
+    def by_args(ty, args, *, handlers):
+        if ty is list and args == (Q,):
+            return QList()
+        return NotImplemented
+    probes = {'list[Q]': (list[Q], [1, 2], [Q(1), Q(2)]), 'list[str]': (list[str], ['a'], ['a']), 'list[int]': (list[int], [3], [3]), 'list': (list, [4], [4]),
+              'tuple[list[str], list[Q]]': (tuple[list[str], list[Q]], [['a'], [5]], (['a'], [Q(5)])), 'dict[str, list[Q]]': (dict[str, list[Q]], {'k': [6]}, {'k': [Q(6)]})}
+    orders = [['list[str]', 'list[Q]', 'list', 'list[int]', 'tuple[list[str], list[Q]]', 'dict[str, list[Q]]'], ['list', 'list[Q]', 'list[str]'], ['list[Q]', 'list[str]', 'list[Q]'],
+              ['tuple[list[str], list[Q]]', 'list[Q]']]
+    with warnings.catch_warnings():
+        warnings.simplefilter('ignore')
+        for placement in ('call-level', 'registered'):
+            for order in orders:
+                def h(ty, args, *, handlers):      # a fresh handler object per history
+                    return by_args(ty, args, handlers=handlers)
+                if placement == 'registered':
+                    V.register_converter_handler(h)
+                try:
+                    for name in order:
+                        ty, data, want = probes[name]
+                        n += 1
+                        try:
+                            got = pane.from_data(data, ty, custom=[h]) if placement == 'call-level' else pane.from_data(data, ty)
+                        except Exception as e:
+                            out.violation(f'{prop}:argument-dependent-handler:{type(e).__name__}', f'{placement} handler serving list[Q] only; lookups so far {order[:order.index(name) + 1]}: '
+                                          f'from_data({data!r}, {name}) raised {type(e).__name__}: {_msg(e)}', {'placement': placement, 'order': order, 'type': name})
+                            continue
+                        if got != want:
+                            out.violation(f'{prop}:argument-dependent-handler', f'{placement} handler serving list[Q] only; lookups so far {order[:order.index(name) + 1]}: '
+                                          f'from_data({data!r}, {name}) = {got!r}, expected {want!r}', {'placement': placement, 'order': order, 'type': name})
+                finally:
+                    if placement == 'registered':
+                        gh = getattr(V, '_GLOBAL_HANDLERS', None)
+                        if gh is not None and h in gh:
+                            gh.remove(h)
+                        cache = getattr(V.make_converter, 'cache', None)
+                        if isinstance(cache, dict):
+                            cache.clear()
+                        for attr in dir(V):      # module-level tables a change may have added: emptied, so that later checks start clean
+                            obj = getattr(V, attr)
+                            if attr.startswith('_') and attr.isupper() and isinstance(obj, (set, dict)) and attr not in ('_BASIC_CONVERTERS', '_BASIC_WITH_ARGS', '_ABSTRACT_MAPPING'):
+                                try:
+                                    if all(isinstance(k, type) for k in obj):
+                                        obj.clear()
+                                except Exception:
+                                    pass
+        # the mapping form serves the exact unparameterised type only: bare `list` after list[int], and the reverse
+        for order in (['list[int]', 'list'], ['list', 'list[int]'], ['tuple[list[int], list]'], ['tuple[list, list[int]]']):
+            conv = Marked()
+            table = {list: conv}
+
+            class Holder(pane.PaneBase, custom=table):
+                a: t.List[int] = pane.field(default_factory=list)
+                b: list = pane.field(default_factory=list)
+            for name in order:
+                n += 1
+                ty, data, want = {'list[int]': (list[int], [1], [1]), 'list': (list, [2], ('marked', [2])), 'tuple[list[int], list]': (tuple[list[int], list], [[1], [2]], ([1], ('marked', [2]))),
+                                  'tuple[list, list[int]]': (tuple[list, list[int]], [[2], [1]], (('marked', [2]), [1]))}[name]
+                try:
+                    got = pane.from_data(data, ty, custom=table)
+                except Exception as e:
+                    out.violation(f'{prop}:mapping-form-handler:{type(e).__name__}', f'custom={{list: conv}}, lookups {order}: from_data({data!r}, {name}) raised {type(e).__name__}: {_msg(e)}', {'order': order, 'type': name})
+                    continue
+                if got != want:
+                    out.violation(f'{prop}:mapping-form-handler', f'custom={{list: conv}} (serves the bare list only), lookups so far {order[:order.index(name) + 1]}: from_data({data!r}, {name}) = {got!r}, '
+                                  f'expected {want!r}', {'order': order, 'type': name})
+            n += 1
+            try:
+                hv = Holder.from_data({'a': [1], 'b': [2]})
+                if (hv.a, hv.b) != ([1], ('marked', [2])):
+                    out.violation(f'{prop}:mapping-form-handler', f'class custom={{list: conv}} with fields a: List[int], b: list gives {hv!r}; b is the bare list the handler serves', {'case': 'class-level'})
+            except Exception as e:
+                out.violation(f'{prop}:mapping-form-handler:{type(e).__name__}', f'class custom={{list: conv}}: {type(e).__name__}: {_msg(e)}', {'case': 'class-level'})
+    return n
